@@ -71,6 +71,9 @@ def gen(tier, seed):
         yield 'scrypt_big %s %s 2 2 1 %d #huge' % (rng.data(8), rng.data(4), (1 << 28) + 1)
         yield 'pbkdf2_big sha1 %s %s 1 %d #huge' % (rng.data(8), rng.data(4), 20 * ((1 << 22) + 1) + 7)
         yield 'pbkdf2_big sha256 %s %s 1 %d #huge' % (rng.data(8), rng.data(4), (1 << 27) + 31)
+    # admissible corner parameters are accepted by ScryptParams::new (nothing is allocated): log2 N just below 16 r, r p just below 2^30
+    for ln, r, p_ in ((15, 1, 1), (1, 1, (1 << 30) - 1), (1, (1 << 30) - 1, 1), (1, 1 << 15, (1 << 15) - 1), (31, 2, 1), (47, 3, 1), (50, 8, 16), (20, 2, 1 << 20), (1, 1, 1)):
+        yield 'scrypt_params %d %d %d #accept' % (ln, r, p_)
     grid = [(ln, r, p) for ln in range(1, 11) for r in range(1, 9) for p in range(1, 5)]
     reps = 2 if thorough else 1
     for rep in range(reps):
@@ -109,6 +112,10 @@ def check(line, toks):
             exp = [hx(hashlib.pbkdf2_hmac(f[1], expand(f[2]), expand(f[3]), int(f[4]), int(f[5])))]
         else:
             exp = [hx(o.pbkdf2(f[1], expand(f[2]), expand(f[3]), int(f[4]), int(f[5])))]
+    elif op == 'scrypt_params':
+        if toks != ['OK']:
+            return [('C10:scrypt:admissible-parameters-refused', 'log2N=%s r=%s p=%s: %s' % (f[1], f[2], f[3], ' '.join(toks)[:60]))]
+        return []
     elif op == 'scrypt_big':
         exp = [_summary(o.scrypt(expand(f[1]), expand(f[2]), int(f[3]), int(f[4]), int(f[5]), int(f[6])))]
     elif op == 'pbkdf2_big':
@@ -137,6 +144,8 @@ def coverage(line, toks):
     f = line.split(' #')[0].split()
     if f[0] in ('scrypt_big', 'pbkdf2_big'):
         return [f[0], 'kdf:output-of-2^26-bytes-or-more']
+    if f[0] == 'scrypt_params':
+        return ['scrypt:corner-parameters-accepted']
     if f[0] == 'scrypt':
         return ['scrypt:r=%s' % f[4], 'scrypt:p=%s' % f[5], 'scrypt:logn=%s' % f[3]]
     if f[0] == 'hkdf_expand':
